@@ -44,9 +44,11 @@ pub fn analyze_order(egraph: &EGraph, enode: &Expr) -> OrderKey {
         Proj([_, c]) | Filter([_, c]) | Window([_, c]) | Limit([_, _, c]) => x(c).clone(),
         // a merge join emits rows in key order; the rows of a side it preserves without a match
         // are padded with NULLs on the other side, so only the preserved side's key stays ordered
-        MergeJoin([t, _, _, _, l, r]) => match egraph[*t].nodes[0] {
-            Inner | RightOuter => x(r).clone(),
-            LeftOuter => x(l).clone(),
+        // (ordered by the join key only: within one key every left row is paired with all right
+        // rows in turn, so a longer order of an input does not survive duplicate keys)
+        MergeJoin([t, _, lkeys, rkeys, _, _]) => match egraph[*t].nodes[0] {
+            Inner | RightOuter => x(rkeys).clone(),
+            LeftOuter => x(lkeys).clone(),
             _ => Box::new([]),
         },
         SortAgg([_, _, c]) => x(c).clone(),
